@@ -108,7 +108,9 @@ def run_history(cfg, hist, final=True):
             last_ok_fd = None
         log_mark = len(s.kern.log)
         if a == 'close':
-            s.close()
+            cr = s.close()
+            if cr and cr[0] == 'exc':
+                vio.append(('closed-after-close()', f'close() raised {cr[1]}: {cr[2]}'))
             if n_open(s) != 0:
                 vio.append(('closed-after-close()', f'{n_open(s)} open after close()'))
             last_ok_fd = None
@@ -172,7 +174,9 @@ def run_history(cfg, hist, final=True):
             vio.append(('at-most-one', 'during the final healthy request'))
         if not s.p.keep_alive and n_open(s) != 0:
             vio.append(('keepalive-off:closed-after-request', 'after the final healthy request'))
-        s.close()
+        cr = s.close()
+        if cr and cr[0] == 'exc':
+            vio.append(('closed-after-close()', f'the final close() raised {cr[1]}: {cr[2]}'))
         s.service_parked()
         if n_open(s) != 0:
             vio.append(('closed-after-close()', f'{n_open(s)} open after final close()'))
